@@ -623,45 +623,59 @@ void addViol(vx::Summary &sum, const Config &cfg, const std::string &hist, const
 }
 
 // ------------------------------------------------------------------------------------------------ mode hist
+double realNow() { struct timespec ts; clock_gettime(CLOCK_MONOTONIC, &ts); return ts.tv_sec + ts.tv_nsec / 1e9; }   // the wall clock is virtual; the monotonic clock is not
+double g_deadline = 0;      // real (monotonic) time after which the enumeration stops; 0 = none
+
 void modeHist(const std::vector<Config> &cfgs, int depth, int maxDay, int shard, int nshards, vx::Summary &sum)
 {
     std::set<unsigned long long> states;
     long long caseNo = 0;
-    for (auto &cfg : cfgs) {
-        auto wk = writeKinds(cfg);
-        auto alpha = alphabet(wk, maxDay, cfg.L);
-        std::vector<int> idx;
-        // enumerate all sequences of length 1..depth in normal form (no D after D, no R after R, no leading R/D... leading D kept: it dates the first record)
-        std::function<void(std::vector<Op> &)> rec = [&](std::vector<Op> &h) {
-            if (!h.empty()) {
-                if ((caseNo++ % nshards) == shard) {
-                    RunResult rr = runHistory(cfg, h, wk);
-                    sum.cases++;
-                    sum.transitions += (long long)h.size() + 1;
-                    for (auto x : rr.hashes) states.insert(x);
-                    sum.counters["rotations"] += rr.rotations; sum.counters["retention_removals"] += rr.removals; sum.counters["gzip_files_decoded"] += rr.gz; sum.counters["gzip_files_seen"] += rr.gzSeen;
-                    if (rr.rotations) sum.counters["histories_with_rotation"]++;
-                    std::string hs = histStr(h, wk);
-                    for (auto &v : rr.viols) addViol(sum, cfg, hs, v, "hist");
-                    if ((sum.cases % 64) == 1) { // determinism: replay and compare the state hashes
-                        RunResult r2 = runHistory(cfg, h, wk);
-                        if (r2.hashes != rr.hashes) { fprintf(stderr, "ENGINE: replay of [%s] diverged\n", hs.c_str()); exit(3); }
-                        sum.replays_ok++;
+    int completed = 0;
+    bool cut = false;
+    // iterative deepening over ALL configurations: when the deadline cuts the run, every history up to the last completed length has
+    // been executed on every configuration (histories are replayed from scratch anyway, so deepening costs nothing extra)
+    for (int d = 1; d <= depth && !cut; d++) {
+        for (auto &cfg : cfgs) {
+            auto wk = writeKinds(cfg);
+            auto alpha = alphabet(wk, maxDay, cfg.L);
+            // all sequences of length d in normal form (no D after D, no R after R, no leading R; a leading D dates the first record)
+            std::function<void(std::vector<Op> &)> rec = [&](std::vector<Op> &h) {
+                if (cut) return;
+                if ((int)h.size() == d) {
+                    if ((caseNo++ % nshards) == shard) {
+                        if (g_deadline > 0 && (sum.cases % 256) == 0 && realNow() > g_deadline) { cut = true; return; }
+                        RunResult rr = runHistory(cfg, h, wk);
+                        sum.cases++;
+                        sum.transitions += (long long)h.size() + 1;
+                        for (auto x : rr.hashes) states.insert(x);
+                        sum.counters["rotations"] += rr.rotations; sum.counters["retention_removals"] += rr.removals; sum.counters["gzip_files_decoded"] += rr.gz; sum.counters["gzip_files_seen"] += rr.gzSeen;
+                        if (rr.rotations) sum.counters["histories_with_rotation"]++;
+                        std::string hs = histStr(h, wk);
+                        for (auto &v : rr.viols) addViol(sum, cfg, hs, v, "hist");
+                        if ((sum.cases % 64) == 1) { // determinism: replay and compare the state hashes
+                            RunResult r2 = runHistory(cfg, h, wk);
+                            if (r2.hashes != rr.hashes) { fprintf(stderr, "ENGINE: replay of [%s] diverged\n", hs.c_str()); exit(3); }
+                            sum.replays_ok++;
+                        }
+                        if (sum.samples.size() < 4 && rr.rotations >= 2 && h.size() >= 3) sum.sample("{\"config\":" + cfg.json() + ",\"history\":" + vx::jstr(hs) + ",\"rotations\":" + std::to_string(rr.rotations) + "}");
                     }
-                    if (sum.samples.size() < 4 && rr.rotations >= 2 && h.size() >= 3) sum.sample("{\"config\":" + cfg.json() + ",\"history\":" + vx::jstr(hs) + ",\"rotations\":" + std::to_string(rr.rotations) + "}");
+                    return;
                 }
-            }
-            if ((int)h.size() == depth) return;
-            for (auto &o : alpha) {
-                if (!h.empty() && o.k == 'D' && h.back().k == 'D') continue;
-                if (!h.empty() && o.k == 'R' && h.back().k == 'R') continue;
-                if (h.empty() && o.k == 'R') continue;
-                h.push_back(o); rec(h); h.pop_back();
-            }
-        };
-        std::vector<Op> h;
-        rec(h);
+                for (auto &o : alpha) {
+                    if (!h.empty() && o.k == 'D' && h.back().k == 'D') continue;
+                    if (!h.empty() && o.k == 'R' && h.back().k == 'R') continue;
+                    if (h.empty() && o.k == 'R') continue;
+                    h.push_back(o); rec(h); h.pop_back();
+                }
+            };
+            std::vector<Op> h;
+            rec(h);
+            if (cut) break;
+        }
+        if (!cut) completed = d;
     }
+    if (cut) sum.exhaustive = false;
+    sum.counters["completed_depth_min"] = completed;   // merged by the driver as a minimum
     sum.states = (long long)states.size();
     for (auto s : states) { (void)s; }
     sum.outcomes.clear();
@@ -1037,6 +1051,7 @@ int main(int argc, char **argv)
     int shard = vx::argInt(argc, argv, "--shard", 0), nshards = vx::argInt(argc, argv, "--nshards", 1);
     int maxDay = vx::argInt(argc, argv, "--maxday", 2);
     g_reduced = vx::argInt(argc, argv, "--reduced", 0) != 0;
+    { int dl = vx::argInt(argc, argv, "--deadline-s", 0); if (dl > 0) g_deadline = realNow() + dl; }
     std::vector<Config> cfgs;
     for (auto &c : QString::fromLatin1(vx::argStr(argc, argv, "--configs", "5,3,0,0,0")).split(';', Qt::SkipEmptyParts)) cfgs.push_back(parseConfig(c.toStdString()));
     char tmpl[] = "/dev/shm/verif-vfs-XXXXXX";
